@@ -453,6 +453,11 @@ def run(ctx):
             lost = [r_ for r_ in sets[1] if r_ not in sets[0]][:3]
             viol.append({"kind": "example", "model": "golomb", "args": [marks, int(sbf)], "given_marks": pre, "length_cap": capl,
                          "detail": f"the model's own consistency algorithm enumerates {len(sets[0])} rulers, plain bound consistency {len(sets[1])}; lost: {lost}; invalid: {bad_r[:2]}"})
+    # the Golomb model's own consistency algorithm against its Lean model golombPrune (C20_golomb_prune_sound is about that model)
+    import golomb_corr
+    gc, gv = golomb_corr.run(report, rng, 120 if not thorough else 3000)
+    corr += gc
+    viol += gv
     w, v, cap = [4, 5, 6, 7], [3, 2, 4, 5], 8
     kp = KnapsackProblem(w, v, cap)
     r = nv.impl_optimize(from_problem(kp), nv.Cfg(), kp.weight, False)
